@@ -95,6 +95,16 @@ def line_of_sight(r1, r2):
 
 
 def in_az_mask(az, lo, hi):
+    """Three-valued; an azimuth within the band of north is both ~0 and ~2 pi (which one a computation lands on is rounding): abstain when that matters."""
+    two_pi = 2 * math.pi
+    if az < ANG_BAND or two_pi - az < ANG_BAND:
+        alias = az + two_pi if az < ANG_BAND else az - two_pi
+        a, b = _in_az_mask(az, lo, hi), _in_az_mask(alias, lo, hi)
+        return a if a == b else None
+    return _in_az_mask(az, lo, hi)
+
+
+def _in_az_mask(az, lo, hi):
     if lo <= hi:
         a, b = tri(az, lo, ANG_BAND, ">="), tri(az, hi, ANG_BAND, "<=")
         if a is False or b is False:
